@@ -32,6 +32,45 @@ LEAN_SOURCES = ["LenaModel/Model/C11.lean", "LenaModel/Model/C11Conc.lean", "Len
                 "LenaModel/Props/C11.lean"]
 DRIVER = "drivers/C11.lean"
 THEOREMS = [
+    "Lena.C11.cell_is_subflow",
+    "Lena.C11.cells_share_nothing",
+    "Lena.C11.fill_one",
+    "Lena.C11.outside_ignored",
+    "Lena.C11.fill_error_is_cells",
+    "Lena.C11.route_inCell",
+    "Lena.C11.route_outside",
+    "Lena.C11.subflow_halfopen",
+    "Lena.C11.context_is_last_inside",
+    "Lena.C11.result_shape",
+    "Lena.C11.result_count_le",
+    "Lena.C11.result_count_stop",
+    "Lena.C11.compute_raise",
+    "Lena.C11.compute_complete",
+    "Lena.C11.compute_context_error",
+    "Lena.C11.variable_in_context",
+    "Lena.C11.context_frame",
+    "Lena.C11.variable_fresh",
+    "Lena.C11.iterate_bins_once",
+    "Lena.C11.iterate_each_cell_once",
+    "Lena.C11.iterate_all_cells",
+    "Lena.C11.cell_edges_own",
+    "Lena.C11.iterate_bins_count",
+    "Lena.C11.iterate_cell_context",
+    "Lena.C11.iterate_passes",
+    "Lena.C11.iterate_passes_unselected",
+    "Lena.C11.map_bins_shape",
+    "Lena.C11.map_bins_count_le",
+    "Lena.C11.map_bins_passes",
+    "Lena.C11.new_valid",
+    "Lena.C11.new_rejects_edges",
+    "Lena.C11.new_rejects_seq",
+    "Lena.C11.new_rejects_argvar",
+    "Lena.C11.mkHistogram_ok",
+    "Lena.C11.mkHistogram_nested1",
+    "Lena.C11.mdMapE_char",
+    "Lena.C11.mdSeqMapRun_out",
+    "Lena.C11.mdSeqMapRun_stop",
+    "Lena.C11.mdSeqMapRun_raise",
 ]
 TRUSTED = [
     "Lean 4.33.0 kernel; axioms limited to propext, Classical.choice, Quot.sound (audited by #print axioms on every run)",
@@ -1146,6 +1185,15 @@ def signature(case, failure):
 
 def shrink(case):
     c = case
+    e = c["edges"]
+    if e and isinstance(e[0], list):
+        for k, a in enumerate(e):
+            if len(a) > 2:
+                yield dict(c, edges=e[:k] + [a[:-1]] + e[k + 1:])
+                yield dict(c, edges=e[:k] + [a[1:]] + e[k + 1:])
+    elif len(e) > 2:
+        yield dict(c, edges=e[:-1])
+        yield dict(c, edges=e[1:])
     for i in range(len(c["flow"])):
         yield dict(c, flow=c["flow"][:i] + c["flow"][i + 1:])
     for st in ("iter", "map"):
